@@ -20,7 +20,7 @@ REQUIRED = {
     "compare_inner_pins": ["call:are_inner_pins_equivalent(X)"],
     "are_inner_pins_equivalent": ["X.port.pins.index(X)", "self.get_identifier(X.port)", "self.get_identifier(X.port.definition)"],
     "are_instances_equivalent": ["self.get_identifier(X.reference)", "self.get_identifier(X.reference.library)", "self.get_identifier(X.parent)"],
-    "compare_instances": ["self.get_identifier(X.reference)", "self.get_identifier(X.reference.library)", "X[x][key]"],
+    "compare_instances": ["self.get_identifier(X.reference)", "self.get_identifier(X.reference.library)", "X[_][_]"],
 }
 
 
@@ -86,6 +86,7 @@ class Sides:
         for name in sorted(self.side, key=len, reverse=True):
             t = re.sub(r"(?<![\w.])%s(?![\w])" % re.escape(name), "X", t)
         t = re.sub(r"self\.ir_(orig|composer)", "X", t)
+        t = re.sub(r"\[[A-Za-z_]\w*\]", "[_]", t)  # index variables are not part of the quantity's identity
         return t
 
 
